@@ -444,6 +444,94 @@ theorem leap_second_not_carried :
     roundTrip jsonLike .naive .millis dt = .ok (.ok ⟨dateOfYo 2015 182, ⟨0, 500000000⟩⟩) := by
   decide +kernel
 
+/-- LEAP VALUES THROUGH EVERY TIMESTAMP MODULE, universally (audit2 LOW-3; `leap_second_not_carried` is one
+instance).  For every valid leap-second representation `dt` (nanosecond field in 10⁹..2·10⁹−1, on any second),
+both targets:
+* seconds modules — the integer written is the count of the second the representation is attached to (second
+  :59 for everything the public constructors build), the SAME integer the non-leap value on that second with the
+  fraction reduced by 10⁹ writes (the leap second collapses onto second :59's count); reading it always
+  succeeds and gives the START of that second: leap second and fraction are both lost;
+* milli- and microsecond modules — the fraction survives at the module's precision, counted INTO THE FOLLOWING
+  second: the integer is `instNs / unit`, reading it gives the non-leap value at `instNs` cut down to the unit,
+  which lies in the second after the one `dt` is attached to — or an error exactly when `dt` sits on the last
+  second of the range (writable, not readable); never a panic.
+The nanosecond modules are `ts_exact_leap_full` + `ts_rejects` (`instNs` itself, read back one second later). -/
+theorem ts_leap_roundtrip (tg : Target) (dt : NaiveDT) (h : NDTInv dt) (hl : ¬ NonLeap dt) :
+    (∃ dt', serialize tg .secs dt = .ok (.ok (.i64 (instSecs dt))) ∧
+        serialize tg .secs ⟨dt.date, ⟨dt.time.secs, dt.time.frac - 1000000000⟩⟩ = serialize tg .secs dt ∧
+        deserialize tg .secs (.i64 (instSecs dt)) = .ok (.ok dt') ∧ NDTInv dt' ∧ NonLeap dt' ∧
+        instNs dt' = instSecs dt * 1000000000) ∧
+    (∀ u, u = TsUnit.millis ∨ u = TsUnit.micros →
+      ∃ r, serialize tg u dt = .ok (.ok (.i64 (instNs dt / nsPer u))) ∧
+        deserialize tg u (.i64 (instNs dt / nsPer u)) = .ok r ∧
+        (r = .err ↔ instSecs dt = TS_MAX) ∧
+        ∀ dt', r = .ok dt' → NDTInv dt' ∧ NonLeap dt' ∧ instNs dt' = instNs dt / nsPer u * nsPer u ∧
+          instSecs dt' = instSecs dt + 1) := by
+  have hmin := ts_min_val
+  have hmax := ts_max_val
+  obtain ⟨w1, w2, w3⟩ := ts_exact_leap tg dt h
+  have hr := instSecs_range dt h
+  have hf : 1000000000 ≤ dt.time.frac ∧ dt.time.frac < 2000000000 := by
+    unfold NonLeap at hl
+    have := h.2
+    unfold TValid at this
+    omega
+  have hns : instNs dt = instSecs dt * 1000000000 + dt.time.frac := rfl
+  refine ⟨?_, ?_⟩
+  · have hi : isI64 (instSecs dt) := by unfold isI64; omega
+    obtain ⟨r, r1, r2, r3⟩ := (ts_rejects tg .secs (instSecs dt)).1 hi
+    have hne : r ≠ .err := by
+      intro he
+      have := r2.1 he
+      simp only [perSec] at this
+      omega
+    cases r with
+    | err => exact absurd rfl hne
+    | ok dt' =>
+      obtain ⟨a, b, c⟩ := r3 dt' rfl
+      refine ⟨dt', w1, ?_, r1, a, b, by rw [c]; rfl⟩
+      have h' : NDTInv (⟨dt.date, ⟨dt.time.secs, dt.time.frac - 1000000000⟩⟩ : NaiveDT) := by
+        refine ⟨h.1, ?_⟩
+        have := h.2
+        unfold TValid at this ⊢
+        dsimp only
+        omega
+      rw [(ts_exact_leap tg _ h').1, w1]
+      rfl
+  · intro u hu
+    have hsec : ∀ dt' : NaiveDT, NDTInv dt' → NonLeap dt' → ∀ k : Int, instNs dt' = k →
+        (instSecs dt + 1) * 1000000000 ≤ k → k < (instSecs dt + 2) * 1000000000 →
+        instSecs dt' = instSecs dt + 1 := by
+      intro dt' a b k hk h1 h2
+      have e : instNs dt' = instSecs dt' * 1000000000 + dt'.time.frac := rfl
+      have := a.2
+      unfold TValid at this
+      unfold NonLeap at b
+      omega
+    rcases hu with hu | hu <;> subst hu
+    · have hi : isI64 (instNs dt / nsPer .millis) := by unfold isI64; simp only [nsPer]; omega
+      obtain ⟨r, r1, r2, r3⟩ := (ts_rejects tg .millis (instNs dt / nsPer .millis)).1 hi
+      refine ⟨r, w2, r1, ?_, ?_⟩
+      · rw [r2]; simp only [perSec, nsPer]; omega
+      · intro dt' hd
+        obtain ⟨a, b, c⟩ := r3 dt' hd
+        refine ⟨a, b, c, hsec dt' a b _ c ?_ ?_⟩ <;> (simp only [nsPer]; omega)
+    · have hi : isI64 (instNs dt / nsPer .micros) := by unfold isI64; simp only [nsPer]; omega
+      obtain ⟨r, r1, r2, r3⟩ := (ts_rejects tg .micros (instNs dt / nsPer .micros)).1 hi
+      refine ⟨r, w3, r1, ?_, ?_⟩
+      · rw [r2]; simp only [perSec, nsPer]; omega
+      · intro dt' hd
+        obtain ⟨a, b, c⟩ := r3 dt' hd
+        refine ⟨a, b, c, hsec dt' a b _ c ?_ ?_⟩ <;> (simp only [nsPer]; omega)
+
+/-- non-vacuity of `ts_leap_roundtrip`: 2015-06-30T23:59:60.5 and a leap representation on the last second
+of the range (where the milli/microsecond modules write but cannot read) satisfy its hypotheses -/
+example :
+    (NDTInv ⟨dateOfYo 2015 181, ⟨86399, 1500000000⟩⟩ ∧ ¬ NonLeap ⟨dateOfYo 2015 181, ⟨86399, 1500000000⟩⟩) ∧
+    (NDTInv ⟨dateOfYo 262142 365, ⟨86399, 1999999999⟩⟩ ∧ ¬ NonLeap ⟨dateOfYo 262142 365, ⟨86399, 1999999999⟩⟩ ∧
+      instSecs ⟨dateOfYo 262142 365, ⟨86399, 1999999999⟩⟩ = TS_MAX) := by
+  decide +kernel
+
 /-- both shapes of real formats satisfy the trusted behaviour as modelled: positional (`bincode`: the integer
 comes back signed) and self-describing (`serde_json`: a non-negative integer comes back unsigned, `Some(n)`
 and `n` share one text) -/
